@@ -5,6 +5,9 @@ package main
 //	c08 facts  -extra <repo> -meta F        structural facts (facts.go)
 //	c08 oracle -seed S -n <children> -tier T -ops F -out F -meta F [-only i]
 //	c08 child  <jobs.json> <out.json> <dir>  (re-exec'd by oracle)
+//	c08 pstate -seed S -n <parallel> -tier T -ops F -out F -meta F [-extra "focus=fam,..;scale=k;heavy=1;replay=file"]
+//	                                         process-state histories over sibling groups (pstate.go)
+//	c08 pchild <spec.json> <out.json> <dir>  (one history in its own process, re-exec'd by pstate)
 
 import (
 	"fmt"
@@ -15,7 +18,7 @@ import (
 
 func main() {
 	if len(os.Args) < 2 {
-		fmt.Fprintln(os.Stderr, "usage: c08 <facts|oracle|child> ...")
+		fmt.Fprintln(os.Stderr, "usage: c08 <facts|oracle|child|pstate|pchild> ...")
 		os.Exit(2)
 	}
 	mode := os.Args[1]
@@ -39,6 +42,12 @@ func main() {
 		o.Close()
 	case "child":
 		runChild(os.Args[2:])
+	case "pstate":
+		cf, o := hxlib.ParseCommon("c08", os.Args[2:], nil)
+		runPState(cf, o)
+		o.Close()
+	case "pchild":
+		runPChild(os.Args[2:])
 	default:
 		fmt.Fprintln(os.Stderr, "unknown mode", mode)
 		os.Exit(2)
